@@ -1,7 +1,7 @@
 (* C11 - zero padding: trailing zeros are ignored when tolerated, rejected when not.  Statements only. *)
 From Coq Require Import ZArith List Bool String.
 From UDS Require Import Lib.Bytes Lib.ErrM Lib.PyOps Model.Message Model.Client Model.Services Model.Svc_Did Model.Svc_Dtc
-  Proofs.C02_lemmas Proofs.C02b_lemmas.
+  Proofs.C02_lemmas Proofs.C02b_lemmas Proofs.C02c_lemmas.
 Import ListNotations.
 Open Scope Z_scope.
 
@@ -93,6 +93,43 @@ Theorem C11_fault_counters_tolerant : forall pc l pre acc n fuel,
   loop_pairs fuel pc true (pre ++ recs4 l ++ repeat 0 n) (List.length pre) acc = inr (acc ++ map dtcf l).
 Proof. intros pc l pre acc n fuel Hw Hz Ht Hi Hf. exact (loop_fault_counters_decode pc l pre acc n fuel Hw (fun _ => Hz) (or_intror (conj Ht Hi)) Hf). Qed.
 Print Assumptions C11_fault_counters_tolerant.
+
+(* ---- the whole response of read_dtc_information: with the tolerance on, n trailing zero bytes change nothing (the decoded values
+   themselves: C02) ------------------------------------------------------------------------------------------------------ *)
+Theorem C11_dtc_by_status_mask : forall cfg sub a av l n,
+  In sub [2; 10; 11; 12; 13; 14; 15; 19; 21] -> Forall wf_rec4 l -> Forall (fun x => x <> (0, 0)) l -> tol_pad cfg = true -> ign_zero cfg = true ->
+  rdtci_decode cfg sub a ([sub; av] ++ recs4 l ++ repeat 0 n) = rdtci_decode cfg sub a ([sub; av] ++ recs4 l).
+Proof. exact dtc_list_padding. Qed.
+Print Assumptions C11_dtc_by_status_mask.
+Theorem C11_severity : forall cfg sub a av l n,
+  In sub [8; 9] -> Forall wf_rec6 l -> Forall (fun x => x <> (0, 0, 0, 0)) l -> tol_pad cfg = true -> ign_zero cfg = true ->
+  rdtci_decode cfg sub a ([sub; av] ++ flat_map rec6 l ++ repeat 0 n) = rdtci_decode cfg sub a ([sub; av] ++ flat_map rec6 l).
+Proof. exact severity_padding. Qed.
+Theorem C11_fault_detection_counters : forall cfg a l n,
+  Forall wf_rec4 l -> Forall (fun x => x <> (0, 0)) l -> tol_pad cfg = true -> ign_zero cfg = true ->
+  rdtci_decode cfg 20 a ([20] ++ recs4 l ++ repeat 0 n) = rdtci_decode cfg 20 a ([20] ++ recs4 l).
+Proof. exact fault_counters_padding. Qed.
+Theorem C11_snapshot_identification : forall cfg a l n,
+  Forall wf_rec4 l -> Forall (fun x => x <> (0, 0)) l -> tol_pad cfg = true -> ign_zero cfg = true ->
+  rdtci_decode cfg 3 a ([3] ++ recs4 l ++ repeat 0 n) = rdtci_decode cfg 3 a ([3] ++ recs4 l).
+Proof. exact snapshot_identification_padding. Qed.
+Theorem C11_snapshots_by_record_number : forall cfg a l n,
+  1 <= snap_did cfg <= 8 -> Forall (wf_srec (pc_of cfg)) l -> l <> [] -> tol_pad cfg = true ->
+  rdtci_decode cfg 5 a ([5] ++ flat_map (srec (Z.to_nat (snap_did cfg))) l ++ repeat 0 n)
+  = rdtci_decode cfg 5 a ([5] ++ flat_map (srec (Z.to_nat (snap_did cfg))) l).
+Proof. exact snapshots_by_record_padding. Qed.
+Theorem C11_wwh_obd : forall cfg a fg sa sva fmt l n,
+  2020 <= std cfg -> 0 <= fg <= 254 -> (fmt = 4 \/ fmt = 2) -> Forall wf_rec5 l -> Forall (fun x => x <> (0, 0, 0)) l ->
+  tol_pad cfg = true -> ign_zero cfg = true ->
+  rdtci_decode cfg 66 a ([66; fg; sa; sva; fmt] ++ flat_map rec5 l ++ repeat 0 n) = rdtci_decode cfg 66 a ([66; fg; sa; sva; fmt] ++ flat_map rec5 l).
+Proof. exact wwh_obd_padding. Qed.
+(* ... and with ignore_all_zero_dtc off, up to a whole record of padding (n < 4 + size) *)
+Theorem C11_extended_data_by_record_number : forall cfg a recnum size l n,
+  2020 <= std cfg -> 0 <= recnum <= 239 -> ext_size_of cfg a = inr size -> Forall (wf_erec size) l -> NoDup (map eid l) ->
+  tol_pad cfg = true -> (ign_zero cfg = true \/ (n < size + 4)%nat) ->
+  rdtci_decode cfg 22 a ([22; recnum] ++ flat_map erec l ++ repeat 0 n) = rdtci_decode cfg 22 a ([22; recnum] ++ flat_map erec l).
+Proof. exact extdata_by_record_padding. Qed.
+Print Assumptions C11_extended_data_by_record_number.
 
 (* C11_partial: with ignore_all_zero_dtc off the whole all-zero records among the padding become DTC 0 records for the fixed-size
    record lists (the exception clause of the property; proved above only for extended data by record number as the boundary
